@@ -53,6 +53,8 @@ pub struct DebugSession {
     module_info: Option<init::ModuleInfo>,
     canceled_request_ids: HashSet<i64>,
     canceled_progress_ids: HashSet<String>,
+    /// `seq` of the last request that has been answered (a request gets exactly one response).
+    last_answered_request: Option<i64>,
 }
 
 const EXCEPTION_FILTER_SIGNAL: &str = "signal";
@@ -125,6 +127,7 @@ impl DebugSession {
             module_info: None,
             canceled_request_ids: HashSet::new(),
             canceled_progress_ids: HashSet::new(),
+            last_answered_request: None,
         }
     }
 
@@ -475,7 +478,10 @@ impl DebugSession {
         };
         let value = serde_json::to_value(rsp)?;
 
-        lock.write_message(&value)
+        lock.write_message(&value)?;
+        drop(lock);
+        self.last_answered_request = Some(req.seq);
+        Ok(())
     }
 
     fn send_event(&mut self, name: &'static str) -> anyhow::Result<()> {
@@ -710,10 +716,18 @@ impl DebugSession {
             if req.r#type != "request" {
                 continue;
             }
+            self.last_answered_request = None;
             let cont = match self.dispatch(&req, &oracles) {
                 Ok(cont) => cont,
                 Err(e) => {
-                    let _ = self.send_err(&req, format!("{e:#}"));
+                    // a handler may fail after it has already answered the request
+                    // (e.g. `continue` acknowledges first and resumes afterwards):
+                    // never send a second response for the same request
+                    if self.last_answered_request != Some(req.seq) {
+                        let _ = self.send_err(&req, format!("{e:#}"));
+                    } else {
+                        warn!(target: "dap", "request {} ({}) failed after response: {e:#}", req.seq, req.command);
+                    }
                     true
                 }
             };
